@@ -1,6 +1,8 @@
 package props
 
 import (
+	"bytes"
+	"encoding/json"
 	"fmt"
 	"os"
 	"strings"
@@ -33,6 +35,10 @@ type C03Case struct {
 	// 1/2: another file of the caller's namespace with the opposite default is added before / after
 	// its file; 3/4: the same for the callee's namespace.
 	Split int `json:"split,omitempty"`
+	// Bundle: render through a message bundle with (marked) identity translations.
+	// Decoy (carrier msg): the message first prints the same expression with a cancelling directive.
+	Bundle bool `json:"bundle,omitempty"`
+	Decoy  int  `json:"decoy,omitempty"` // 0 none, 1 |noAutoescape, 2 |id
 }
 
 const (
@@ -92,7 +98,12 @@ func buildC03(c C03Case) (pc gen.ProgCase, printerNs, printerTmpl string) {
 		main.Body = []ref.Cmd{{K: "for", Var: "it", Expr: &ref.Expr{Op: "call", Name: "range", Args: []*ref.Expr{{Op: "int", I: 2}}}, Body: append(append([]ref.Cmd{}, framed...),
 			ref.Cmd{K: "call", Call: &ref.Call{Target: "b.lib.show", Style: 1, Params: []ref.Param{{Key: "x", Value: &ref.Expr{Op: "str", S: "k"}}}}})}}
 	case "msg":
-		main.Body = []ref.Cmd{{K: "msg", Desc: "m", Body: []ref.Cmd{txt("Hi " + s1), under, txt(s2 + " there")}}}
+		body := []ref.Cmd{txt("Hi " + s1), under, txt(s2 + " there")}
+		if c.Decoy > 0 {
+			dd := []ref.Directive{{Name: []string{"noAutoescape", "id"}[c.Decoy-1]}}
+			body = append([]ref.Cmd{txt("raw: "), {K: "print", Expr: varE("x"), Directives: dd}, txt(" ")}, body...)
+		}
+		main.Body = []ref.Cmd{{K: "msg", Desc: "m", Body: body}}
 	default:
 		panic("carrier " + c.Carrier)
 	}
@@ -164,6 +175,11 @@ func checkC03(c C03Case) Verdict {
 	if want.Status == ref.Valueless {
 		return excluded("case does not render (valueless)")
 	}
+	if c.Bundle {
+		if b, _ := json.Marshal(c.Value); strings.ContainsAny(string(b), "«»") {
+			c.Bundle = false
+		}
+	}
 	var (
 		cb  *compiled
 		err error
@@ -172,8 +188,16 @@ func checkC03(c C03Case) Verdict {
 	)
 	if !finishes(watchdogLimit(), func() {
 		cb, err, pn = compileBundle(names, srcs, nil)
-		if err == nil && pn == nil {
+		if err == nil && pn == nil && !c.Bundle {
 			rr = cb.render(pc.Entry, pc.Data, nil, false)
+		}
+		if err == nil && pn == nil && c.Bundle {
+			// through a bundle of identity translations; the marks around translated text are removed again
+			var buf bytes.Buffer
+			rr.panicked = catch(func() {
+				rr.err = cb.tofu.NewRenderer(pc.Entry).WithMessages(identityBundle(cb)).Execute(&buf, toDataMap(pc.Data))
+			})
+			rr.out = strings.NewReplacer("«", "", "»", "").Replace(buf.String())
 		}
 	}) {
 		hangExit("C03", c, "compile+render")
@@ -338,6 +362,8 @@ func genC03(t *rapid.T) C03Case {
 		CalleeMode: rapid.SampledFrom(c03Modes).Draw(t, "calleeTmpl"),
 		Header:     rapid.Bool().Draw(t, "header"),
 		Split:      rapid.SampledFrom([]int{0, 0, 0, 1, 2, 3, 4}).Draw(t, "split"),
+		Bundle:     rapid.IntRange(0, 3).Draw(t, "bundle") == 0,
+		Decoy:      rapid.SampledFrom([]int{0, 0, 1, 2}).Draw(t, "decoy"),
 	}
 	n := rapid.SampledFrom([]int{0, 0, 1, 1, 2, 3}).Draw(t, "chainLen")
 	for i := 0; i < n; i++ {
